@@ -1,9 +1,248 @@
 ------------------------------ MODULE CmdHash ------------------------------
-(* placeholder: semantics of the hash commands (to be written) *)
+(***************************************************************************)
+(* Semantics of the 14 hash commands (property C14): a hash is a map from  *)
+(* field (bytes) to a scalar value.  internal/modules/hash/commands.go.    *)
+(*                                                                         *)
+(* A field value written by HSET/HSETNX is typed exactly like a value      *)
+(* written by SET (Typed: canonical integer -> int, canonical quarter      *)
+(* float -> float, anything else -> string; the implementation's parsing   *)
+(* of non-canonical numerals is the open deviation AdaptCanon).            *)
+(*                                                                         *)
+(* Reply conventions (as-code, see NOTES / DECISIONS):                     *)
+(*   - an integer field value is sent as a RESP integer, strings and       *)
+(*     floats as bulk strings (HValReply);                                 *)
+(*   - HGET/HMGET/HSTRLEN always reply an array, one entry per field       *)
+(*     asked; on a missing key they reply a single nil;                    *)
+(*   - replies that enumerate the map (HKEYS, HVALS, HGETALL, HRANDFIELD   *)
+(*     of the whole hash) are in no particular order: RBag / RPairBag;     *)
+(*   - a hash emptied by HDEL stays as an empty hash.                      *)
+(* Every operator defined here starts with H or XH.                        *)
+(***************************************************************************)
 EXTENDS CmdBase
 
-HashOps == {}
-ExecHash(C, a, g) == Skip(C)
-HashDevs(a) == {}
+HashOps == {"HSET", "HSETNX", "HGET", "HMGET", "HSTRLEN", "HVALS", "HRANDFIELD", "HLEN", "HKEYS",
+            "HINCRBY", "HINCRBYFLOAT", "HGETALL", "HEXISTS", "HDEL"}
+
+HReadOps == {"HGET", "HMGET", "HSTRLEN", "HVALS", "HRANDFIELD", "HLEN", "HKEYS", "HGETALL", "HEXISTS"}
+
+----------------------------------------------------------------------------
+\* helpers
+
+HNoFields == [f \in {} |-> VStr(<<>>)]
+
+HIsHash(C, k)  == Live(C, k) /\ ValOf(C, k).k = "hash"
+HWrongType(C, k) == Live(C, k) /\ ValOf(C, k).k # "hash"
+\* the reference map behind key k (a missing key is the empty map)
+HMap(C, k) == IF HIsHash(C, k) THEN ValOf(C, k).h ELSE HNoFields
+
+RECURSIVE HSetToSeq(_)
+HSetToSeq(s) == IF s = {} THEN <<>>
+                ELSE LET x == CHOOSE y \in s : TRUE IN <<x>> \o HSetToSeq(s \ {x})
+
+\* how a field value is put on the wire: int -> ":n", string / float -> bulk
+HValReply(v) == IF v.k = "int" THEN RInt(v.n) ELSE RStr(Render(v))
+
+\* the same test against one element of a logged reply
+HValMatches(v, ge) == IF v.k = "int" THEN ge.t = "int" /\ ge.n = v.n
+                      ELSE ge.t = "bulk" /\ ge.b = Render(v)
+
+\* strconv.Atoi on a token as the harness puts it on the wire (a Q token that is a whole number
+\* is written without a fraction and so parses)
+HIntOk(t) == IsIntT(t) \/ (IsQT(t) /\ t.inf = 0 /\ t.q % 4 = 0) \/ (~IsQT(t) /\ ~IsIntT(t) /\ IsBytesT(t) /\ IsParseInt(t.b))
+HIntVal(t) == IF IsIntT(t) THEN t.i ELSE IF IsQT(t) THEN t.q \div 4 ELSE ParseIntVal(t.b)
+
+\* a reply no logged reply can equal (an illegal random choice)
+HNoMatch == [t |-> "illegal-choice"]
+
+----------------------------------------------------------------------------
+\* HSET key field value [field value ...]      HSETNX key field value [field value ...]
+\* The pairs of one command are collected into a map first (for a repeated field the last value
+\* wins - also for HSETNX, as-code) and then merged into the hash.  Reply: the number of distinct
+\* fields written (HSET) / created (HSETNX).
+\* Reference (C01, api docs): a key of another type is an error.  The implementation replaces the
+\* value with the new hash: deviation HSetWrongType.
+
+XHSet(C, a, nx) ==
+    IF Len(a) < 4 THEN Fail(C)
+    ELSE IF (Len(a) - 2) % 2 # 0 THEN Fail(C)
+    ELSE LET k      == a[2].s
+             n      == (Len(a) - 2) \div 2
+             fld(i) == TokBytes(a[2 * i + 1])
+             val(i) == TokBytes(a[2 * i + 2])
+             F      == {fld(i) : i \in 1..n}
+             last(f) == CHOOSE i \in 1..n : fld(i) = f /\ \A j \in (i + 1)..n : fld(j) # f
+             new    == [f \in F |-> Typed(val(last(f)), C.D)]
+         IN IF \E i \in 1..n : Unmodelled(val(i)) THEN Skip(C)
+            ELSE IF HWrongType(C, k)
+                 THEN IF Dev(C, "HSetWrongType")
+                      THEN Res(Write(C, k, VHash(new)), RInt(Cardinality(F)))
+                      ELSE Fail(C)
+            ELSE LET old    == HMap(C, k)
+                     merged == [f \in (DOMAIN old) \cup F |->
+                                   IF nx THEN (IF f \in DOMAIN old THEN old[f] ELSE new[f])
+                                   ELSE (IF f \in F THEN new[f] ELSE old[f])]
+                     cnt    == IF nx THEN Cardinality(F \ DOMAIN old) ELSE Cardinality(F)
+                 IN Res(Write(C, k, VHash(merged)), RInt(cnt))
+
+----------------------------------------------------------------------------
+\* HGET key field [field ...]   HMGET key field [field ...]  : array, nil for an absent field
+
+XHGet(C, a) ==
+    IF Len(a) < 3 THEN Fail(C)
+    ELSE LET k == a[2].s IN
+         IF ~Live(C, k) THEN Res(C.S, RNil)                  \* as-code: a single nil
+         ELSE IF HWrongType(C, k) THEN Fail(C)
+         ELSE LET h == HMap(C, k) IN
+              Res(C.S, RArr([i \in 1..(Len(a) - 2) |->
+                               LET f == TokBytes(a[i + 2]) IN
+                               IF f \in DOMAIN h THEN HValReply(h[f]) ELSE RNil]))
+
+\* HSTRLEN key field [field ...] : array of the lengths of the values as text, 0 for an absent field
+XHStrLen(C, a) ==
+    IF Len(a) < 3 THEN Fail(C)
+    ELSE LET k == a[2].s IN
+         IF ~Live(C, k) THEN Res(C.S, RNil)                  \* as-code: a single nil
+         ELSE IF HWrongType(C, k) THEN Fail(C)
+         ELSE LET h == HMap(C, k) IN
+              Res(C.S, RArr([i \in 1..(Len(a) - 2) |->
+                               LET f == TokBytes(a[i + 2]) IN
+                               IF f \in DOMAIN h THEN RInt(Len(Render(h[f]))) ELSE RInt(0)]))
+
+----------------------------------------------------------------------------
+\* HVALS / HKEYS / HGETALL / HLEN key
+
+XHVals(C, a) ==
+    IF Len(a) # 2 THEN Fail(C)
+    ELSE IF HWrongType(C, a[2].s) THEN Fail(C)
+    ELSE LET h == HMap(C, a[2].s)   fs == HSetToSeq(DOMAIN h) IN
+         Res(C.S, RBag([i \in 1..Len(fs) |-> HValReply(h[fs[i]])]))
+
+XHKeys(C, a) ==
+    IF Len(a) # 2 THEN Fail(C)
+    ELSE IF HWrongType(C, a[2].s) THEN Fail(C)
+    ELSE LET h == HMap(C, a[2].s)   fs == HSetToSeq(DOMAIN h) IN
+         Res(C.S, RBag([i \in 1..Len(fs) |-> RStr(fs[i])]))
+
+XHGetAll(C, a) ==
+    IF Len(a) # 2 THEN Fail(C)
+    ELSE IF HWrongType(C, a[2].s) THEN Fail(C)
+    ELSE LET h == HMap(C, a[2].s)   fs == HSetToSeq(DOMAIN h) IN
+         Res(C.S, RPairBag([i \in 1..(2 * Len(fs)) |->
+                              IF i % 2 = 1 THEN RStr(fs[(i + 1) \div 2]) ELSE HValReply(h[fs[i \div 2]])]))
+
+XHLen(C, a) ==
+    IF Len(a) # 2 THEN Fail(C)
+    ELSE IF HWrongType(C, a[2].s) THEN Fail(C)
+    ELSE Res(C.S, RInt(Cardinality(DOMAIN HMap(C, a[2].s))))
+
+\* HEXISTS key field
+XHExists(C, a) ==
+    IF Len(a) # 3 THEN Fail(C)
+    ELSE IF HWrongType(C, a[2].s) THEN Fail(C)
+    ELSE Res(C.S, RInt(IF TokBytes(a[3]) \in DOMAIN HMap(C, a[2].s) THEN 1 ELSE 0))
+
+----------------------------------------------------------------------------
+\* HDEL key field [field ...] : number of fields removed (a repeated field counts once).
+\* as-code: a missing key is not created; a hash that loses its last field stays (empty).
+
+XHDel(C, a) ==
+    IF Len(a) < 3 THEN Fail(C)
+    ELSE LET k == a[2].s IN
+         IF ~Live(C, k) THEN Res(C.S, RInt(0))
+         ELSE IF HWrongType(C, k) THEN Fail(C)
+         ELSE LET h    == HMap(C, k)
+                  gone == {TokBytes(a[i]) : i \in 3..Len(a)} \cap DOMAIN h
+              IN Res(Write(C, k, VHash([f \in (DOMAIN h) \ gone |-> h[f]])), RInt(Cardinality(gone)))
+
+----------------------------------------------------------------------------
+\* HINCRBY key field integer      HINCRBYFLOAT key field float
+\* A missing key / field counts as 0.  as-code: an integer stays an integer under HINCRBY and
+\* becomes a float under HINCRBYFLOAT (even when the sum is whole); a float stays a float under
+\* both.  Reply: ":n" for an integer result, "+text" for a float result.
+
+HNumeric(v) == v.k \in {"int", "flt"} \/ (v.k = "str" /\ IsLooseNum(v.b) /\ LooseNum(v.b).ok)
+\* [isint, n, q] view of a numeric value (a numeric string only exists in the reference typing)
+HNumOf(v) == CASE v.k = "int" -> [isint |-> TRUE, n |-> v.n, q |-> 4 * v.n]
+               [] v.k = "flt" -> [isint |-> FALSE, n |-> 0, q |-> v.q]
+               [] OTHER       -> [isint |-> LooseNum(v.b).isint, n |-> LooseNum(v.b).n, q |-> LooseNum(v.b).q]
+
+XHIncrBy(C, a, flt) ==
+    IF Len(a) # 4 THEN Fail(C)
+    ELSE IF flt /\ IsQT(a[4]) /\ a[4].inf # 0 THEN Skip(C)
+    ELSE IF flt /\ ~IsQT(a[4]) /\ ~IsIntT(a[4]) /\ IsBytesT(a[4]) /\ Unmodelled(a[4].b) THEN Skip(C)
+    ELSE IF flt /\ ~FltArgOk(a[4]) THEN Fail(C)
+    ELSE IF ~flt /\ ~HIntOk(a[4]) THEN Fail(C)
+    ELSE LET k    == a[2].s
+             f    == TokBytes(a[3])
+             incq == IF flt THEN FltArg(a[4]) ELSE 4 * HIntVal(a[4])
+         IN IF HWrongType(C, k) THEN Fail(C)
+            ELSE LET h   == HMap(C, k)
+                     cur == IF f \in DOMAIN h THEN h[f] ELSE VInt(0)
+                 IN IF cur.k = "str" /\ Unmodelled(cur.b) THEN Skip(C)
+                    ELSE IF cur.k = "flt" /\ cur.inf # 0 THEN Skip(C)
+                    ELSE IF ~HNumeric(cur) THEN Fail(C)
+                    ELSE LET c   == HNumOf(cur)
+                             new == IF c.isint /\ ~flt THEN VInt(c.n + (incq \div 4)) ELSE VFlt(c.q + incq)
+                             h2  == [x \in (DOMAIN h) \cup {f} |-> IF x = f THEN new ELSE h[x]]
+                         IN Res(Write(C, k, VHash(h2)),
+                                IF new.k = "int" THEN RInt(new.n) ELSE RStr(FmtQ(new.q)))
+
+----------------------------------------------------------------------------
+\* HRANDFIELD key [count [WITHVALUES]]
+\* Always an array (as-code, also without a count: one element).  count > 0: min(count, size)
+\* distinct fields; count < 0: exactly |count| fields, repetitions allowed; count = 0 or an empty
+\* / missing hash: the empty array.  With WITHVALUES each field is followed by its current value.
+\* The choice is read off the logged reply g and checked to be legal.
+
+HIsWithValues(t) == IsSym(t) /\ KW(t) = "WITHVALUES"
+
+XHRandField(C, a, g) ==
+    IF Len(a) < 2 \/ Len(a) > 4 THEN Fail(C)
+    ELSE IF Len(a) >= 3 /\ ~HIntOk(a[3]) THEN Fail(C)
+    ELSE IF Len(a) = 4 /\ ~HIsWithValues(a[4]) THEN Fail(C)
+    ELSE LET k     == a[2].s
+             cnt   == IF Len(a) >= 3 THEN HIntVal(a[3]) ELSE 1
+             withv == Len(a) = 4
+         IN IF HWrongType(C, k) THEN Fail(C)
+            ELSE LET h    == HMap(C, k)
+                     n    == Cardinality(DOMAIN h)
+                     want == IF cnt > 0 THEN Min2(cnt, n) ELSE (IF n = 0 THEN 0 ELSE -cnt)
+                     step == IF withv THEN 2 ELSE 1
+                 IN IF want = 0 THEN Res(C.S, RArr(<<>>))
+                    ELSE IF ~("t" \in DOMAIN g) \/ g.t # "arr" THEN Res(C.S, HNoMatch)
+                    ELSE IF Len(g.a) # want * step THEN Res(C.S, HNoMatch)
+                    ELSE LET fpos(i) == (i - 1) * step + 1
+                             legal ==
+                                /\ \A i \in 1..want : g.a[fpos(i)].t = "bulk" /\ g.a[fpos(i)].b \in DOMAIN h
+                                /\ cnt > 0 => \A i, j \in 1..want : i # j => g.a[fpos(i)].b # g.a[fpos(j)].b
+                                /\ withv => \A i \in 1..want : HValMatches(h[g.a[fpos(i)].b], g.a[fpos(i) + 1])
+                         IN IF ~legal THEN Res(C.S, HNoMatch)
+                            ELSE Res(C.S, RArr([j \in 1..(want * step) |->
+                                                  IF withv /\ j % 2 = 0 THEN HValReply(h[g.a[j - 1].b])
+                                                  ELSE RStr(g.a[j].b)]))
+
+----------------------------------------------------------------------------
+
+ExecHash(C, a, g) ==
+    LET op == a[1].s IN
+    CASE op = "HSET"         -> XHSet(C, a, FALSE)
+      [] op = "HSETNX"       -> XHSet(C, a, TRUE)
+      [] op = "HGET"         -> XHGet(C, a)
+      [] op = "HMGET"        -> XHGet(C, a)
+      [] op = "HSTRLEN"      -> XHStrLen(C, a)
+      [] op = "HVALS"        -> XHVals(C, a)
+      [] op = "HRANDFIELD"   -> XHRandField(C, a, g)
+      [] op = "HLEN"         -> XHLen(C, a)
+      [] op = "HKEYS"        -> XHKeys(C, a)
+      [] op = "HINCRBY"      -> XHIncrBy(C, a, FALSE)
+      [] op = "HINCRBYFLOAT" -> XHIncrBy(C, a, TRUE)
+      [] op = "HGETALL"      -> XHGetAll(C, a)
+      [] op = "HEXISTS"      -> XHExists(C, a)
+      [] op = "HDEL"         -> XHDel(C, a)
+
+HashDevs(a) ==
+    LET op == a[1].s IN
+    CASE op \in {"HSET", "HSETNX"} -> {"AdaptCanon", "HSetWrongType"}
+      [] OTHER -> {}
 
 =============================================================================
